@@ -61,6 +61,9 @@ def _family_specs():
     m = copy.deepcopy(_MARKS)
     m["comment"] = {"attrs": {"id": {"default": 0}}, "excludes": "", "inclusive": False}
     m["hilite"] = {"excludes": "em strong"}
+    m["x1"] = {"excludes": "x2"}
+    m["x2"] = {"excludes": "x1 code"}
+    n["notepara"] = {"content": "inline*", "group": "block", "marks": "em strong link x1"}
     fam["blockmarks"] = {"nodes": n, "marks": m}
     return fam
 
